@@ -395,6 +395,17 @@ func (g *G) Vector(d int) string {
 			g.P.Metrics = []string{`{__name__=~"h.*_bucket"}`}
 		}
 		inner := g.Vector(d - 1)
+		if g.R.Intn(3) == 0 {
+			// the canonical shape: buckets aggregated by le (and maybe one more label) first, so
+			// that the operand is produced by an aggregation behind a look-ahead goroutine
+			by := []string{"le", "le, a", "le, b", "le, p"}[g.R.Intn(4)]
+			op := []string{"sum", "sum", "max", "avg"}[g.R.Intn(4)]
+			sel := g.Selector()
+			if g.R.Intn(2) == 0 {
+				sel = fmt.Sprintf("rate(%s[%s])", sel, []string{"1m", "45s", "5m"}[g.R.Intn(3)])
+			}
+			inner = fmt.Sprintf("%s by (%s) (%s)", op, by, sel)
+		}
 		g.P.Metrics = save
 		return fmt.Sprintf("histogram_quantile(%s, %s)", g.qParam(d), inner)
 	case 12:
